@@ -268,6 +268,14 @@ class Session:
         if kind == "missing":
             self.fault("pulse-missing")
             return
+        if kind == "dir_no_init":
+            # a directory of that name which is no package: the module cannot be found
+            self.fault("pulse-dir-without-init")
+            d = os.path.join(self.scratch, name)
+            os.makedirs(d, exist_ok=True)
+            with open(os.path.join(d, "readme.txt"), "w") as f:
+                f.write("not a package\n")
+            return
         if kind == "package":
             d = os.path.join(self.scratch, name)
             os.makedirs(d, exist_ok=True)
@@ -282,6 +290,9 @@ class Session:
         out = {}
         if e.get("pulses"):
             out.update(autoload_pulses=True, import_path=self.scratch)
+            if e["pulses"].get("no_import_dir"):
+                # the caller's import directory does not exist (any more)
+                out["import_path"] = os.path.join(self.scratch, "no_such_directory")
             if kw.get("inject_subset"):
                 # inject_pulses overrides usepulses for the named gates
                 out["inject_pulses"] = {k: self.G[k] for k in kw["inject_subset"] if k in self.G}
@@ -331,7 +342,7 @@ class Session:
         if via == "run_string":
             from jaqalpaq.run import run_jaqal_string
 
-            return lambda: run_jaqal_string(txt, import_path=self.scratch)
+            return lambda: run_jaqal_string(txt, import_path=kw.get("import_path", self.scratch))
         if via == "run_file":
             from jaqalpaq.run import run_jaqal_file
 
@@ -1010,8 +1021,10 @@ def plan_c16(run_seed):
             prog, ov, cfg = make_program(st, "t%d" % i, "exec", "C16", {"anon": False})
             e = {"prog": prog, "noise": cfg["layout_noise"], "anon": False, "exec": True, "ov": ov}
             if t.chance(0.5):
-                kind = t.weighted([("good", 5), ("package", 1.5), ("missing", 1.5), ("noattr", 1.5), ("raises", 2)])
+                kind = t.weighted([("good", 5), ("package", 1.5), ("missing", 1.5), ("noattr", 1.5), ("raises", 2), ("dir_no_init", 1.0)])
                 e["pulses"] = {"mod": "%s_%d" % (modbase, i), "relative": t.chance(0.6), "kind": kind, "j": t.randrange(2)}
+                if e["pulses"]["relative"] and kind in ("good", "package") and t.chance(0.12):
+                    e["pulses"]["no_import_dir"] = True
         else:
             prog, ov, cfg = make_program(st, "t%d" % i, "general", "C16")
             e = {"prog": prog, "noise": cfg["layout_noise"], "anon": cfg["anon"], "exec": False, "ov": ov}
@@ -1373,7 +1386,9 @@ def allowed_for(S, op):
                 kind = e2["pulses"]["kind"]
         exists = bool(top) and (os.path.isfile(os.path.join(S.scratch, top + ".py")) or os.path.isdir(os.path.join(S.scratch, top)))
         findable = exists and (rel or S.scratch in sys.path or name in sys.modules)
-        if not findable or kind in ("missing", "noattr") or name != top:
+        if not findable or kind in ("missing", "noattr", "dir_no_init") or name != top:
+            extra.append("ImportError")
+        elif rel and pm and pm.get("no_import_dir"):
             extra.append("ImportError")
     return tuple(extra)
 
